@@ -161,6 +161,21 @@ EXTRA5 = {
  "C20": " Also: the id of every imported recovered message is consumed on every non-failing path of the copy/move-out loop.",
 }
 
+EXTRA6 = {
+ "C02": " Also: idleCh is armed only after a flush that holds nothing back (shared with C01).",
+ "C03": " Also: the remote ids the connector is told to add derive only from the list that is added locally.",
+ "C06": " Also: the state updates of two calls are concatenated in the order of their writes.",
+ "C11": " Also: every name decodeMailboxName returns is the output of the UTF-7 decoder (the only validation of its bytes).",
+ "C12": " Also: countLines increments only where the remaining bytes are proved non-empty (an empty body has 0 lines).",
+ "C13": " Also: in Fields / FieldsNot an entry copied without the name lookup is identified by a test on its own bytes / key.",
+ "C14": " Also: in State.List every existing mailbox removes its remote id from the deleted subscriptions, on every iteration; names pass the UTF-7 decoder.",
+ "C16": " Also: the command parser performs no arithmetic or comparison on SeqNum values.",
+ "C17": " Also: the error of a limit-check helper (checkMailboxHasRoom) is never dropped.",
+ "C18": " Also: Backend.loginErrorCount is written only by the login path (getUserID, its timer callback and helpers).",
+ "C19": " Also: every accepted connection has its Close deferred in Server.serve itself.",
+ "C20": " Also: State.List decides about the recovery mailbox from GetMailboxMessageCount.",
+}
+
 for i in ids:
     if i in impl and i in T:
         lt, ln, tech, ref = T[i]
@@ -171,7 +186,7 @@ for i in ids:
             "evidence_file": f"evidence/{i}.json",
             "replay_cmd_template": "./bin/verifcheck -replay {path}",
             "engine": "verifcheck",
-            "level_claimed": {"category": "other", "text": lt + EXTRA.get(i, "") + EXTRA3.get(i, "") + EXTRA4.get(i, "") + EXTRA5.get(i, ""), "design_ref": ref},
+            "level_claimed": {"category": "other", "text": lt + EXTRA.get(i, "") + EXTRA3.get(i, "") + EXTRA4.get(i, "") + EXTRA5.get(i, "") + EXTRA6.get(i, ""), "design_ref": ref},
             "level_note": ln,
             "technique": tech,
         })
